@@ -957,6 +957,7 @@ func fanOut(b *build, prop, tier string, seed uint64, n, procs, budgetS int, kee
 					crashes = append(crashes, &Result{Prop: prop, Index: lastStart, Seed: seed,
 						Viol: &Violation{Class: "no-progress-in-gate-code", Sig: site, Detail: tail(w.stderr, 3000)}})
 				} else {
+					_ = os.WriteFile(filepath.Join(verifDir, ".work", "last-worker-stderr.txt"), []byte(w.stderr), 0o644)
 					harnessErrs = append(harnessErrs, fmt.Sprintf("worker %d died in run index %d: %v\n%s", k, lastStart, w.err, tail(w.stderr, 6000)))
 				}
 			} else {
